@@ -192,7 +192,7 @@ class MustWrite:
                     ty = fn.local_ty(a[1][0])
                     if ty.startswith("{closure:") or ty.startswith("&{closure:") \
                             or ty.startswith("&mut {closure:"):
-                        cid = ty[ty.index("{closure:") + 9:].rstrip("}")
+                        cid = ty[ty.index("{closure:") + 9:-1]
                         if cid in prog.fns:
                             clos.append(prog.fns[cid])
             if not targets and clos and short(c.name) in ("for_each", "map", "try_for_each",
@@ -254,25 +254,24 @@ class MustWrite:
         path = find_path(fn, 0, rets, blocked=err_blocks, blocked_edges=blocked_edges)
         if path is None:
             return (True, [])
-        # is the offending path touching an undecided / failing callee?
+        # a callee that does not always write is not a write event, but it is the place to
+        # look: name the innermost such callee on the offending path as the root cause
         on_path_unknown = [unknown_blocks[b] for b in path if b in unknown_blocks]
         on_path_failed = [failed_callee[b] for b in path if b in failed_callee]
-        # try to find a path that avoids undecided callees as well: if none exists, the
-        # verdict is undecided rather than a violation
-        if on_path_unknown or on_path_failed:
+        if on_path_unknown:
             be2 = set(blocked_edges)
-            for b in list(unknown_blocks) + list(failed_callee):
+            for b in list(unknown_blocks):
                 for s_ in fn.succ[b]:
                     be2.add((b, s_))
             p2 = find_path(fn, 0, rets, blocked=err_blocks, blocked_edges=be2)
-            if p2 is not None:
-                return (False, [self._root(fn, p2), self._describe(fn, p2)])
-            if on_path_failed:
-                c, why = on_path_failed[0]
-                # why[0] is the root-cause key of the innermost failing function
-                return (False, [why[0], "%s calls %s at %s" % (fn.name, c.name, c.at)]
-                        + list(why[1:]))
-            return (None, on_path_unknown)
+            if p2 is None:
+                return (None, on_path_unknown)
+            path = p2
+            on_path_failed = [failed_callee[b] for b in path if b in failed_callee]
+        if on_path_failed:
+            c, why = on_path_failed[-1]
+            return (False, [why[0], "%s calls %s at %s" % (fn.name, c.name, c.at)]
+                    + list(why[1:]))
         return (False, [self._root(fn, path), self._describe(fn, path)])
 
     def _root(self, fn, path):
